@@ -10,7 +10,7 @@ from common import driver, proof_stage
 import subgen
 from c15 import run_calls, stats
 
-MODULES = ["CobyqaVerif.Props.C16", "CobyqaVerif.Props.C15Loop"]
+MODULES = ["CobyqaVerif.Props.C16", "CobyqaVerif.Props.C15Loop", "CobyqaVerif.Props.C16Cauchy"]
 LEVEL = "proof"
 OWN = ("model-increased", "violation-increased", "magnitude-decreased")
 EPS = subgen.EPS
@@ -108,6 +108,65 @@ def cauchy_reference(c):
     return s * (1.0 - 1e-9)
 
 
+def cauchy_correspondence(rng, n_gen):
+    """Tie of lean/CobyqaVerif/Alg/Cauchy.lean to the code: on inputs whose ascent corner of the box fits in the trust
+    region (no rescaling: the Cauchy direction of each of the two calls IS that corner) the model, run in exact rational
+    arithmetic on the same data and directions, must return the step of the real cauchy_geometry (1e-9 relative)."""
+    import math
+    import warnings
+    import exact
+    import cobyqa.subsolvers as S
+    lines, cases = [], []
+    for _ in range(n_gen):
+        c = subgen.gen(rng, "cauchy")
+        xl, xu = np.minimum(c["xl"], 0.0), np.maximum(c["xu"], 0.0)
+        g = c["g"]
+
+        def corner(gr):
+            d = np.zeros_like(gr)
+            lo = (xl < 0) & (gr < 0)
+            hi = (xu > 0) & (gr > 0)
+            d[lo] = xl[lo]
+            d[hi] = xu[hi]
+            return d
+        c1, c2 = corner(g), corner(-g)
+        if not (np.all(np.isfinite(c1)) and np.all(np.isfinite(c2))):
+            continue
+        if not (np.linalg.norm(c1) <= c["delta"] * (1 - 1e-9) and np.linalg.norm(c2) <= c["delta"] * (1 - 1e-9)):
+            continue
+
+        def rl(v):
+            return " ".join(exact.rs(Fr(float(x))) for x in np.atleast_1d(v))
+
+        def ol(v):
+            return " ".join("none" if not np.isfinite(x) else exact.rs(Fr(float(x))) for x in v)
+        sn = [Fr(math.sqrt(float(d @ d))) * (1 + Fr(1, 2 ** 48)) for d in (c1, c2)]
+        lines.append(f"cauchy {c['n']} | {rl(c['const'])} ; {rl(g)} ; {rl(c['H'].ravel())} ; {ol(xl)} ; {ol(xu)} ; {rl(c['delta'])} ; {rl(c1)} ; {rl(c2)} ; "
+                     f"{exact.rs(sn[0])} {exact.rs(sn[1])}")
+        cases.append(c)
+    ans = exact.driver_alg(lines) if lines else []
+    agree, mism = 0, []
+    for c, a in zip(cases, ans):
+        with warnings.catch_warnings(), np.errstate(all="ignore"):
+            warnings.simplefilter("ignore")
+            s = S.cauchy_geometry(c["const"], c["g"], lambda v: float(v @ c["H"] @ v), c["xl"].copy(), c["xu"].copy(), c["delta"], False)
+        if not a.startswith("ok"):
+            mism.append((c, "driver answered " + a[:40]))
+            continue
+        m = np.array([float(Fr(t)) for t in a.split()[1:]])
+        sc = max(float(np.linalg.norm(s)), float(np.linalg.norm(m)), 1e-300)
+        if float(np.linalg.norm(m - s)) <= 1e-9 * sc:
+            agree += 1
+        else:
+            # the two candidates may tie in |q|: then either step is a correct answer of the same magnitude
+            q = lambda v: abs(c["const"] + float(c["g"] @ v) + 0.5 * float(v @ c["H"] @ v))  # noqa
+            if abs(q(m) - q(s)) <= 1e-9 * max(q(m), q(s), 1e-300):
+                agree += 1
+            else:
+                mism.append((c, f"exact model step {m.tolist()} vs implementation {np.asarray(s).tolist()}"))
+    return {"cases_with_the_corner_inside_the_ball": len(cases), "agree": agree, "mismatches": len(mism)}, mism
+
+
 def run(chk, rng, replay=None):
     ok, info = proof_stage(chk, MODULES)
     cases, out, ans, crashed = run_calls(chk, rng, replay, 2500, 100000)
@@ -162,6 +221,8 @@ def run(chk, rng, replay=None):
         "degeneracies_hit": stats(out), "cauchy_decrease_comparisons": n_cauchy, "path_cauchy_comparisons_convex": n_path, "least_fraction_of_path_cauchy_decrease": worst_path, "strict_increase_cases": n_strict,
         "predicate_failures": len(fails),
     })
+    cstat, cmism = cauchy_correspondence(rng, 400 if chk.tier == "quick" else 8000) if replay is None else ({}, [])
+    chk.coverage["cauchy_geometry_model_correspondence"] = cstat
     chk.assumptions += ["kernel theorems are exact-arithmetic; the loops of the solvers are covered by the sampled calls only",
                         "the projected-gradient Cauchy reference is computed by the harness (exact rational model values, step shortened by 1e-9 to stay feasible)"]
     reported = 0
@@ -173,5 +234,9 @@ def run(chk, rng, replay=None):
                        "explain": "call the solver named in case['kind'] with these arguments (harness/subgen.py call); the returned step is worse than not moving / than the reference step in the named sense",
                        "signature": {"failure": what.split(" ")[0].rstrip(":"), "solver": c["kind"], "tiny_gradient": bool(tiny), "zero_step": bool(not np.any(s))}})
         reported += len(chk.violations) - before
+    if not fails and cmism:
+        c, what = cmism[0]
+        chk.violation({"property": "C16", "kind": "proof-or-correspondence-broken", "correspondence": "Alg/Cauchy.lean (exact) vs cauchy_geometry",
+                       "case": subgen.case_json(c), "difference": what, "mismatches": len(cmism)}, no_input=True)
     if not fails and not ok:
         chk.violation({"property": "C16", "kind": "proof-or-correspondence-broken", "broken": info.get("problems")}, no_input=True)
